@@ -26,7 +26,7 @@ RULE = ("two inverter objects (all ordered pairs of 8 templates: ET 205 eco-v2 /
 ASSUMPTIONS = ["results are compared by type name, str() and (for eco-mode / schedule values) their public fields",
                "each transcript runs in its own interpreter started by the check (subprocess per transcript)"]
 MUST = ["transcripts", "interleavings_compared", "concurrent_interleavings", "snapshots_checked", "eco_values_snapshotted",
-        "cross_family_pairs", "same_template_pairs", "requests_compared", "concurrent_with_fragmented_answers", "long_history_pairs", "same_host_pairs"]
+        "cross_family_pairs", "same_template_pairs", "requests_compared", "concurrent_with_fragmented_answers", "long_history_pairs", "same_host_pairs", "drifting_measurements_pairs"]
 EXHAUSTIVE = {"quick": False, "thorough": False}
 
 TEMPLATES = ["ET205", "ET205g", "ET205u", "ET745", "ETv1", "ETf", "ETc", "DT", "DTu", "DTc", "ESv1", "ESv2", "ESv2g"]
@@ -114,6 +114,7 @@ def worker(spec):
     for i, o in enumerate(objs):
         sim = build_sim(o["template"], o["seed"], f"inv{i}")
         sim.delay = spec.get("latency", 0.0)
+        sim.drift = bool(o.get("drift"))
         if o.get("frag"):           # this inverter answers in two pieces (same in its solo transcript)
             sim.frag = tuple(o["frag"])
         sims_.append(sim)
@@ -279,6 +280,8 @@ def scenario_check(sc, part, workdir):
         part.count("long_history_pairs")
     if sc.get("same_host"):
         part.count("same_host_pairs")
+    if sc.get("drifting"):
+        part.count("drifting_measurements_pairs")
     if objs[0]["template"][:2] != objs[1]["template"][:2]:
         part.count("cross_family_pairs")
     if objs[0]["template"] == objs[1]["template"]:
@@ -391,6 +394,17 @@ def same_host_scenarios(seed):
     return out
 
 
+def drift_scenarios(seed):
+    """the inverters' measurements move on between polls: a result handed out by an earlier poll keeps the values it had"""
+    out = []
+    rr = [["read_runtime_data"], ["read_runtime_data"], ["read_sensor", "vpv1"], ["read_runtime_data"]]
+    for a, b in (("ESv1", "ESv2"), ("ET205", "DT"), ("DT", "ESv1"), ("ET205", "ET745")):
+        out.append({"seed": f"{seed}:drift:{a}:{b}", "n_random_merges": 1, "n_concurrent": 0, "drifting": True,
+                    "objects": [{"template": a, "port": 8899, "seed": f"{seed}:dfA{len(out)}", "calls": rr, "drift": True},
+                                {"template": b, "port": 8899, "seed": f"{seed}:dfB{len(out)}", "calls": rr[:2], "drift": True}]})
+    return out
+
+
 def long_history_scenarios(seed):
     """object A has a long Modbus/TCP history behind it (tens of thousands of requests) when object B makes its few calls"""
     out = []
@@ -411,7 +425,7 @@ def run_shard(spec):
     part = Part()
     tier = spec["tier"]
     rnd = random.Random(f"{spec['seed']}:C20")
-    scs = directed_scenarios(spec["seed"]) + fragment_scenarios(spec["seed"]) + long_history_scenarios(spec["seed"]) + same_host_scenarios(spec["seed"])
+    scs = directed_scenarios(spec["seed"]) + fragment_scenarios(spec["seed"]) + long_history_scenarios(spec["seed"]) + same_host_scenarios(spec["seed"]) + drift_scenarios(spec["seed"])
     pairs = list(itertools.product(TEMPLATES, repeat=2))
     reps = 1 if tier == "quick" else 12
     for r in range(reps):
